@@ -39,6 +39,7 @@ def bundle_schema(draw, depth):
         fields = []
         for i in range(draw(st.integers(1, 3))):
             fields.append((f"f{i}", tsb(d - 1) if d > 1 and draw(st.integers(0, 2)) == 0 else
+                           ("TSS", "int") if draw(st.integers(0, 4)) == 0 else
                            ("TS", draw(st.sampled_from(["int", "int", "str", "bool"])))))
         return ("TSB", fields)
     b = tsb(depth - 1)
@@ -338,6 +339,8 @@ def check(case, ctx) -> Result:
         res.labels.append("nested_consumer")
     if any(k == "keyset" for _, _, k in cons):
         res.labels.append("key_set_consumer")
+    if '"sets"' in flat or ('"setv"' in flat and "[]" in flat):
+        res.labels.append("whole_set_write")
     if '"setd"' in flat:
         res.labels.append("whole_dictionary_write")
     if any(p for _, p, _ in cons):
